@@ -182,6 +182,34 @@ func (e *engine) step(m *mock, pre, post *refmvcc.Store, o Op, want Result) (fs 
 				what: fmt.Sprintf("after %s the store holds %q, reference %q", o, dump, wantDump)})
 		}
 	}
+	if o.Kind == "gc" && len(want.Errs) == 1 && want.Errs[0].IsOK() {
+		// "GC ... preserves every read at or above the safe point": checked on the
+		// reference itself (the mock is tied to it by the stored-state comparison).
+		for _, k := range e.cfg.keys {
+			for _, ts := range e.cfg.readTS {
+				if ts < o.Safe {
+					continue
+				}
+				v1, _, f1 := pre.Read(k, ts)
+				v2, _, f2 := post.Read(k, ts)
+				if v1 != v2 || f1 != f2 {
+					fs = append(fs, finding{key: "reference-invariant:gc-changes-read", what: fmt.Sprintf("reference GC(safe=%s) changed Read(%s @%s) from %q to %q", u(o.Safe), k, u(ts), v1, v2), violation: true})
+				}
+			}
+		}
+	}
+	if diffDump && !hasViolation(fs) {
+		// Same answer but different stored entries: look for a visible consequence right
+		// away (the successor state may have been visited before and would not be observed).
+		var fails []obsFail
+		func() {
+			defer func() { recover() }()
+			fails, _ = m.observe(e.cfg, post)
+		}()
+		for _, f := range fails {
+			fs = append(fs, finding{key: f.key + ":after:" + variant(o), what: fmt.Sprintf("after %s: %s", o, f.what), violation: true})
+		}
+	}
 	bump(&e.outcomes, variant(o)+" "+opSituation(pre, o, 0)+" -> "+classes(got.Errs))
 	return fs, diffDump
 }
